@@ -261,6 +261,12 @@ func matchComponent(g *G, n int, opts map[string]string) *Out {
 			}
 		}
 		nontrivial := c.Class == "ok" && len(c.Results) > 0 && hasVar(c.P)
+		switch opts["mode"] {
+		case "c02":
+			nontrivial = c.Class == "ok" && len(c.Planted) > 0
+		case "c03":
+			nontrivial = countMaps(c.P)+countMaps(c.F) > 0 && (c.Class != "ok" || len(c.Results) > 0)
+		}
 		key := canon(c.P) + canon(c.F) + canon(c.Bs)
 		o.add(term, key, nontrivial, c)
 	}
@@ -278,7 +284,15 @@ func matchComponent(g *G, n int, opts map[string]string) *Out {
 	}
 	for i := 0; i < n; i++ {
 		c := &matchCase{}
-		switch k := g.intn(100); {
+		k := g.intn(100)
+		switch opts["mode"] {
+		case "c02":
+			// mostly planted
+			if k >= 12 {
+				k = 55 + k%30
+			}
+		}
+		switch {
 		case k < 55:
 			// instance of the pattern, extras, sometimes corrupted
 			ctx := newPctx()
@@ -300,8 +314,15 @@ func matchComponent(g *G, n int, opts map[string]string) *Out {
 			sigma := map[string]interface{}{}
 			if !ctx.linear {
 				// repeated variables take scalar values
+				names := make([]string, 0, len(ctx.vars))
 				for v := range ctx.vars {
-					if v != "?" {
+					names = append(names, v)
+				}
+				sort.Strings(names)
+				for _, v := range names {
+					if v == "?k" || v == "?j" {
+						sigma[v] = g.pick(vocabKeys)
+					} else if v != "?" {
 						sigma[v] = g.scalar()
 					}
 				}
@@ -350,4 +371,26 @@ func loadMatchReplay(path string) []*matchCase {
 		c.Kind = "replay"
 	}
 	return wrapper.Cases
+}
+
+// countMaps: number of maps with at least two keys (where iteration order can matter)
+func countMaps(x interface{}) int {
+	n := 0
+	switch v := x.(type) {
+	case []interface{}:
+		if len(v) > 1 {
+			n++
+		}
+		for _, y := range v {
+			n += countMaps(y)
+		}
+	case map[string]interface{}:
+		if len(v) > 1 {
+			n++
+		}
+		for _, y := range v {
+			n += countMaps(y)
+		}
+	}
+	return n
 }
